@@ -357,6 +357,11 @@ func (p *PX) term(v ssa.Value, fr *pxFrame, st *pxState) *Term {
 						return &Term{K: TPure, Name: "struct", Args: args, T: x.Type(), key: "struct{" + strings.Join(keys, ",") + "}"}
 					}
 				}
+				// a local array loaded as a whole (`range` over an array of parts): the
+				// cells stored on this path (pxarray.go)
+				if t := p.localArrayValue(al, fr, st); t != nil {
+					return t
+				}
 			}
 			// *(*T)(unsafe.Pointer(&cell)) with T an integer type of the cell's width:
 			// the bits of the cell read as a T — the same-width conversion
@@ -447,7 +452,7 @@ func (p *PX) term(v ssa.Value, fr *pxFrame, st *pxState) *Term {
 			return p.term(x.X, fr, st)
 		}
 	case *ssa.Index:
-		if a := p.term(x.X, fr, st); (a.K == TPure && a.Name == "roval") || a.CV != nil {
+		if a := p.term(x.X, fr, st); (a.K == TPure && (a.Name == "roval" || a.Name == "array")) || a.CV != nil {
 			if i := p.term(x.Index, fr, st); i.K == TConst && i.C.IsInt64() {
 				if t := p.componentOf(a, int(i.C.Int64()), fr, st); t != nil {
 					return t
@@ -749,6 +754,8 @@ func (p *PX) instrs(fr *pxFrame, b *ssa.BasicBlock, from int, st *pxState, k pxC
 			// a whole-struct store advances the versions of all fields of the type: first,
 			// so that the components recorded for a local (splitStruct) carry the new versions
 			p.structStore(x, st)
+			// rows of a private local array of structs built in place (pxarray.go)
+			p.localRowStore(x, fr, st)
 			// local variable cells and symbolic byte sequences
 			if al, ok := x.Addr.(*ssa.Alloc); ok {
 				vt := p.term(x.Val, fr, st)
